@@ -314,7 +314,7 @@ class World:
         if name in self.uf_decls:
             return PV('uf', name)
         if name in self.ghost_names:
-            return SV(V.ListV(self.ghost_seq(it, name)))
+            return SV(V.ListV(self.ghost_seq(it, name)), 'list:tuple')
         if name == 'inv':
             return PV('inv', None)
         if name in Builtins.NAMES:
@@ -424,7 +424,16 @@ class World:
         return spec
 
     # ----------------------------------------------------------- spec eval
-    def eval_spec(self, it, text, env, ctx=None):
+    def eval_spec(self, it, text, env, ctx=None, polarity=None):
+        saved_pol = it.polarity
+        if polarity is not None:
+            it.polarity = polarity
+        try:
+            return self._eval_spec(it, text, env, ctx)
+        finally:
+            it.polarity = saved_pol
+
+    def _eval_spec(self, it, text, env, ctx=None):
         node = ast.parse(text.strip(), mode='eval').body
         frame = Frame(dict(env), ('spec', ctx or (self.current or {}).get('module'), '<clause>'), None)
         it.frames.append(frame)
@@ -504,22 +513,27 @@ class World:
             return m[fty]
         if ':' in fty:
             kind, ety = fty.split(':', 1)
-            i = z3.Int('i!ti')
+            # the kinds of the elements are not asserted as a quantified fact: they are attached to each
+            # element when it is looked up / iterated (element_kind), justified by the declared field type
             if kind in ('tuple', 'list'):
-                seq = V.titems(v) if kind == 'tuple' else V.litems(v)
-                tag = V.is_TupleV(v) if kind == 'tuple' else V.is_ListV(v)
-                return z3.And(tag, z3.ForAll([i], z3.Implies(z3.And(0 <= i, i < z3.Length(seq)),
-                                                             self.kind_pred(it, seq[i], ety))))
+                return V.is_TupleV(v) if kind == 'tuple' else V.is_ListV(v)
             if kind in ('dict', 'enumdict'):
-                kx = z3.String('k!ti')
-                return z3.And(V.is_DictV(v), vals.wf(v),
-                              z3.ForAll([kx], z3.Implies(z3.Select(V.dhas(v), kx),
-                                                         self.kind_pred(it, z3.Select(V.dmap(v), kx), ety))))
+                return z3.And(V.is_DictV(v), vals.wf(v))
             if kind == 'callable':
                 return V.is_ObjV(v)
         if fty in self.classes:
             return z3.And(V.is_ObjV(v), self.cids.sub(CLSOF(V.oid(v)), fty))
         raise Unsupported(f'unknown field type {fty}')
+
+    def element_kind(self, it, term, ety, guard=None):
+        """an element taken from a container with declared element type has that kind"""
+        if not ety or ety in ('any', '?'):
+            return
+        try:
+            f = self.kind_pred(it, term, ety)
+        except Unsupported:
+            return
+        it.assume_axiom(f if guard is None else z3.Implies(guard, f))
 
     def class_invariant(self, it, obj, cls):
         """assumable/provable invariant of an object of static class cls (SV Bool)"""
@@ -527,14 +541,103 @@ class World:
             f = self.uf('inv!U', [IntS, BoolS])
             return z3.And(V.is_ObjV(obj.t), self.cids.sub(CLSOF(V.oid(obj.t)), cls), f(V.oid(obj.t)))
         tinv = self.type_invariant(it, obj, cls)
+        if it.polarity == 'assume':
+            # the invariant is being assumed: evaluate the rest under the kinds it fixes, without forking
+            snap_pc, snap_known = list(it.pc), list(it.known)
+            snap_envs = [dict(fr.env) for fr in it.frames]
+            try:
+                it.pc.append(it.refine(tinv))
+                it.learn(it.refine(tinv))
+                return z3.And(tinv, self._class_invariant_rest(it, obj, cls))
+            finally:
+                it.pc[:] = snap_pc
+                it.known = snap_known
+                for fr, env in zip(it.frames, snap_envs):
+                    fr.env = env
         if not it.branch(tinv, 'type invariant'):
             return z3.BoolVal(False)
-        parts = [tinv]
+        return z3.And(tinv, self._class_invariant_rest(it, obj, cls))
+
+    def _class_invariant_rest(self, it, obj, cls):
+        parts = []
         for c in self.mro(cls):
             for text in self.property_invariants(c) + list(self.classes[c].get('inv', [])):
                 v = self.eval_spec(it, text, {'self': obj}, ctx=self.classes[c].get('contract_module'))
                 parts.append(vals.truthy(v.t))
+            # element invariants of dict fields: for all keys k of self.<field>: P(self, k, self.<field>[k])
+            for field, text in self.classes[c].get('elem_inv', {}).items():
+                d = it.read_field(obj.t, field)
+                if it.polarity == 'assume':
+                    # not asserted as a quantified hypothesis: instantiated when a key of the dict is looked up
+                    it.lazy_inv.append({'obj': obj, 'field': field, 'text': text, 'heap': dict(it.heap),
+                                        'ghost': dict(it.ghost), 'dict': d, 'ctx': self.classes[c].get('contract_module')})
+                else:
+                    k = it.fresh('ek', StrS)
+                    body = self.eval_spec(it, text, {'self': obj, 'k': SV(V.StrV(k)), 'v': SV(z3.Select(V.dmap(d), k),
+                                          O._elem_type(self.field_type(cls, field)))}, ctx=self.classes[c].get('contract_module'))
+                    # k is a fresh constant: proving the instance for it proves it for all keys
+                    parts.append(z3.Implies(z3.Select(V.dhas(d), k), vals.truthy(body.t)))
         return z3.And(*parts)
+
+    def lazy_instantiate(self, it, dterm, key):
+        """a key of a dict with a pending element invariant is looked up: assume the invariant for that key"""
+        if not it.lazy_inv or it.in_lazy:
+            return
+        from .engine import ProbeFork
+        dterm = it.refine(dterm)
+        for ent in list(it.lazy_inv):
+            if not it.refine(ent['dict']).eq(dterm):
+                continue
+            tag = (ent['field'], ent['obj'].t.get_id(), it.refine(key).get_id(), id(ent))
+            if tag in it.lazy_done:
+                continue
+            it.lazy_done.add(tag)
+            cur = (it.heap, it.ghost)
+            snap_pc, snap_known = list(it.pc), list(it.known)
+            # decision replay: whether this instantiation evaluated without forking is recorded in the script
+            path = it.path
+            replay = path.pos < len(path.script)
+            if replay:
+                marker = path.script[path.pos]
+                path.pos += 1
+                if marker != -1:
+                    continue
+            pos0, n0 = path.pos, len(path.script)
+            counter0, nfresh0 = it.counter, len(it.fresh_log)
+            it.in_lazy = True
+            it.probe += 1
+            try:
+                it.heap, it.ghost = dict(ent['heap']), dict(ent['ghost'])
+                cls = ent['obj'].ty
+                elty = O._elem_type(self.field_type(cls, ent['field']))
+                has = z3.Select(V.dhas(dterm), key)
+                it.pc.append(has)
+                body = self.eval_spec(it, ent['text'], {'self': ent['obj'], 'k': SV(V.StrV(key)),
+                                                        'v': SV(z3.Select(V.dmap(dterm), key), elty)}, ctx=ent['ctx'], polarity='assume')
+                fact = z3.Implies(has, vals.truthy(body.t))
+            except (ProbeFork, PathEnd, PyRaise) as e:
+                if os.environ.get('PYVC_DEBUG'):
+                    print('lazy instantiation failed:', ent['field'], ent['text'], type(e).__name__, getattr(e, 'args', ''))
+                fact = None
+            finally:
+                it.probe -= 1
+                it.in_lazy = False
+                it.heap, it.ghost = cur
+                it.pc[:] = snap_pc
+                it.known = snap_known
+            if not replay:
+                if fact is not None:
+                    path.script.insert(pos0, -1)
+                    path.pos += 1
+                else:
+                    del path.script[n0:]
+                    path.pos = pos0
+                    path.script.append(-2)
+                    path.pos += 1
+                    it.counter = counter0
+                    del it.fresh_log[nfresh0:]
+            if fact is not None:
+                it.assume_axiom(fact)
 
     def property_invariants(self, cls):
         """invariants read mechanically from `name = Property(descr, <datatype>, ...)` declarations"""
@@ -659,7 +762,7 @@ class World:
                 it.assume(self.kind_pred(it, res.t, c['result_kind']))
             env['result'] = res
             for nme, text in c['ensures'].items():
-                v = self.eval_spec(it, text, env, ctx)
+                v = self.eval_spec(it, text, env, ctx, polarity='assume')
                 it.assume(vals.truthy(v.t))
             for lname, lem, hyp in lemma_hyps:
                 if lem.get('raises', 'never') == 'must':
@@ -678,7 +781,7 @@ class World:
         env['exc'] = SV(V.ClsV(CLSOF(exc)))
         env['excval'] = excv
         for nme, text in c['raises'].items():
-            v = self.eval_spec(it, text, env, ctx)
+            v = self.eval_spec(it, text, env, ctx, polarity='assume')
             it.assume(vals.truthy(v.t))
         for lname, lem in quant_lemmas:
             self.assume_quantified_lemma(it, lem, env, ctx, entry_heap, entry_ghost, returned=False)
@@ -796,7 +899,7 @@ class World:
             for g in self.ghost_names:
                 self.ghost_seq(it, g)
             for text in list(c['requires']) + list(c.get('assumes', [])) + list(extra_requires):
-                v = self.eval_spec(it, text, env, ctx)
+                v = self.eval_spec(it, text, env, ctx, polarity='assume')
                 it.assume(vals.truthy(v.t))
             # known-finding input classes: the clause is proved for every input outside them
             excl = {}
